@@ -352,6 +352,43 @@ def _r_islamic_day0(t, impl, expected):
     return False
 
 
+def _days_from_civil(y, m, d):
+    y -= m <= 2
+    era = y // 400
+    yoe = y - era * 400
+    doy = (153 * (m + (-3 if m > 2 else 9)) + 2) // 5 + d - 1
+    doe = yoe * 365 + yoe // 4 - yoe // 100 + doy
+    return era * 146097 + doe - 719468
+
+
+# Hebrew years of Temporal's range whose molad of Tishrei falls exactly on Saturday 18 h 0 p: (coded new year as an
+# epoch day, year length by the keviyah).  The coded new year is a week early, so the seven days before the true new
+# year are reported as days 1-7 of the year and the last seven days of the (coded) year belong to no year.
+_HEBREW_GATE_YEARS = [(25590919, 353), (68455167, 383), (-44063484, 353)]
+
+
+def _in_hebrew_gate_window(n):
+    for nyc, ln in _HEBREW_GATE_YEARS:
+        if nyc - 2 <= n <= nyc + 8 or nyc + ln - 2 <= n <= nyc + ln + 9:
+            return True
+    return False
+
+
+@region("cal-hebrew-molad-at-gate")
+def _r_hebrew_gate(t, impl, expected):
+    """hebrew: in -114910, 75795 and 193152 AM the molad of Tishrei falls exactly on Saturday 18 h 0 p; the library's
+    keviyah postpones the new year (`>=`) but its week count does not move on (`>`), so its new year is a week early:
+    around the (coded) start and end of those years days are skipped, repeated or numbered 0, dates do not rebuild,
+    and a build with debug assertions panics (calendrical_calculations hebrew_keviyah.rs:281)."""
+    if len(t) < 5 or t[1] != "hebrew" or t[0] not in ("cal_law", "cal_rt", "cal_withid", "cal_toymc", "cal_next", "cal_fields"):
+        return False
+    try:
+        n = _days_from_civil(int(t[2]), int(t[3]), int(t[4]))
+    except ValueError:
+        return False
+    return _in_hebrew_gate_window(n)
+
+
 @region("pdt-from-first-representable-date")
 def _r_pdt_from_first(t, impl, expected):
     """`PlainDateTime::from(PlainDate)` for the first representable date: midnight of that day is outside the
